@@ -301,31 +301,34 @@ def _nan_intolerant_returns(w, ee, flow):
 
 
 def _pair_names(target):
-  """For a loop / comprehension target over dict items, (row name, {names of the two halves of the
-  value} or the single value name): `r, (b, a)` -> ('r', ('b', 'a'), None); `r, d` -> ('r', None, 'd')."""
+  """For a loop / comprehension target over dict items: (text of the row id, the two texts of the
+  halves of the value), in the normal form Flow.itext gives (unpacked names stay names, anything
+  else is indexing): `r, (b, a)` -> ('r', {'b','a'}); `r, d` -> ('r', {'d[0]','d[1]'});
+  `item` -> ('item[0]', {'item[1][0]','item[1][1]'})."""
+  if isinstance(target, ast.Name):
+    t = target.id
+    return "%s[0]" % t, {"%s[1][0]" % t, "%s[1][1]" % t}, "%s[1]" % t
   if isinstance(target, (ast.Tuple, ast.List)) and len(target.elts) == 2 and \
       isinstance(target.elts[0], ast.Name):
     v = target.elts[1]
     if isinstance(v, (ast.Tuple, ast.List)) and len(v.elts) == 2 and \
         all(isinstance(x, ast.Name) for x in v.elts):
-      return target.elts[0].id, (v.elts[0].id, v.elts[1].id), None
+      return target.elts[0].id, {v.elts[0].id, v.elts[1].id}, None
     if isinstance(v, ast.Name):
-      return target.elts[0].id, None, v.id
+      return target.elts[0].id, {"%s[0]" % v.id, "%s[1]" % v.id}, v.id
   return None
 
 
-def _is_pair_test(e, pair, whole):
-  """equal_encoding(<before>, <after>) on the two halves of the iterated delta value."""
+def _is_pair_test(e, pn, norm):
+  """equal_encoding(<before>, <after>) on the two halves of the iterated delta value; `norm`
+  gives the normal-form text of an operand."""
   if not (isinstance(e, ast.Call) and dotted(e.func) == "equal_encoding"):
     return False
   if len(e.args) == 1 and isinstance(e.args[0], ast.Starred):
-    return whole is not None and text(e.args[0].value) == whole
+    return pn[2] is not None and norm(e.args[0].value) == pn[2]
   if len(e.args) != 2:
     return False
-  got = {text(a) for a in e.args}
-  if pair is not None:
-    return got == set(pair)
-  return got == {"%s[0]" % whole, "%s[1]" % whole}
+  return {norm(a) for a in e.args} == pn[1]
 
 
 def _emitted_rows_filtered(w, ca):
@@ -336,6 +339,7 @@ def _emitted_rows_filtered(w, ca):
   cfg = ca.cfg
   delta = ca.fi.params()[3]
   filt_nodes = set()
+  seen_pass = []
   def over_delta(it, k):
     return _attr_call(it, "items") and flow.itext(it.func.value, k, stop=(delta,)) == delta
   # comprehension spelling
@@ -345,38 +349,43 @@ def _emitted_rows_filtered(w, ca):
         if isinstance(x, (ast.GeneratorExp, ast.ListComp, ast.SetComp)) and \
             len(x.generators) == 1 and over_delta(x.generators[0].iter, n.id):
           g = x.generators[0]
+          seen_pass.append(n.id)
           pn = _pair_names(g.target)
           if pn is None or text(x.elt) != pn[0]:
             continue
           fs = [f for t in g.ifs for f in facts(t, True)]
-          if fs and all(pol is False and _is_pair_test(t, pn[1], pn[2]) for (t, pol) in fs):
+          if fs and all(pol is False and _is_pair_test(t, pn, text) for (t, pol) in fs):
             filt_nodes.add(n.id)
   # loop spelling: <rows>.append(r) reached only when equal_encoding(before, after) is false
   for n in cfg.nodes:
     if n.kind == "for" and over_delta(n.stmt.iter, n.id):
+      seen_pass.append(n.id)
       pn = _pair_names(n.stmt.target)
       if pn is None:
         continue
       for (m, c, nm) in calls_E(ca):
         if _attr_call(c, "append") or _attr_call(c, "add"):
-          if len(c.args) == 1 and text(c.args[0]) == pn[0] and \
-              flow.binder(pn[0], m.id) is n:
-            req = [f for f in flow.required_facts(m.id) if f[2] in cfg.reach_after({n.id})]
-            if req and all(pol is False and _is_pair_test(t, pn[1], pn[2])
+          if len(c.args) == 1 and m.id in flow.loop_body(n.id) and \
+              flow.itext(c.args[0], m.id) == pn[0]:
+            req = flow.facts_inside(m.id, n.id)
+            if req and all(pol is False and
+                           _is_pair_test(t, pn, lambda a, i_=i: flow.itext(a, i_))
                            for (t, pol, i) in req):
               filt_nodes.add(m.id)
   if not filt_nodes:
+    if not seen_pass:
+      raise AnalysisError("_changes_to_actions: no pass over the column delta found "
+                          "(row filtering moved?)")
     return False
-  # every emitted update action takes its rows from that filtered pass
-  inner = [s for s in ca.node.body if isinstance(s, ast.FunctionDef)]
-  names = {f.name for f in inner}
+  # every action written to the out lists is built from rows of that filtered pass
   du = flow.du
-  emits = [(n, c) for (n, c, nm) in calls_E(ca) if nm in names]
-  if not emits:
-    raise AnalysisError("_changes_to_actions: no call of the local action builder found")
-  for (n, c) in emits:
-    a0 = argn(w, ca, c, 0)
-    if a0 is None or not (du.backward_slice([a0]) & filt_nodes):
+  outs = ca.fi.params()[4:6]
+  writes = [(n, c) for (n, c, nm) in calls_E(ca)
+            if nm in [o + m for o in outs for m in (".append", ".insert", ".extend")]]
+  if not writes:
+    raise AnalysisError("_changes_to_actions: no write to the out lists found")
+  for (n, c) in writes:
+    if not (du.backward_slice([c]) & filt_nodes):
       return False
   return True
 
@@ -420,12 +429,59 @@ def r3_decode(run, w):
       ok = ok or (a1 is not None and text(a1) == "_decode_db_value")
   run.ob(R3, td.qualname, "actions.decode_bulk_values(parsed, _decode_db_value)",
          "every cell read from the database goes through the decoder", ok, fi=td.fi)
-  lt2 = w.fn("main.run.load_table")
-  ok = any((lt2.name(c) or "").endswith("load_and_record_table_data") for c in calls_in(lt2.node))
-  lr = w.fn("main.run.load_and_record_table_data")
-  ok = ok and any(dotted(c.func) == "table_data_from_db" for c in calls_in(lr.node))
-  run.ob(R3, lt2.qualname, "eng.load_table(load_and_record_table_data(...))",
-         "tables arriving from Node are decoded before loading", ok, fi=lt2.fi)
+  # tables arriving from Node: whatever is handed to <engine>.load_table() in main.py is the result
+  # of table_data_from_db(), directly or through a helper (closure or module-level) returning it
+  from ._h_E import callgraph
+  cg = callgraph(w)
+  main_mod = w.repo.module("main")
+  def returns_decoded(fi, depth=2):
+    """fi returns what table_data_from_db() returned (possibly through one more helper):
+    True / False / None when it cannot be followed."""
+    f = w.fn_of(fi)
+    fl = Flow(f)
+    cases = [l for (rn, l) in return_cases(fl)]
+    if not cases:
+      return False
+    res = True
+    for l in cases:
+      r = decoded_call(f, l.expr, depth - 1) if isinstance(l.expr, ast.Call) else \
+          (None if isinstance(l.expr, ast.Name) else False)
+      if r is False:
+        return False
+      if r is None:
+        res = None
+    return res
+  def decoded_call(f, call, depth):
+    if dotted(call.func) == "table_data_from_db":
+      return True
+    if depth < 0:
+      return None
+    tg = cg.resolve(f, call)
+    if not tg:
+      return None
+    rs = [returns_decoded(t, depth) for t in tg]
+    return False if False in rs else (None if None in rs else True)
+  sites = []
+  for fi in w.repo.all_functions():
+    if fi.module is not main_mod:
+      continue
+    f = w.fn_of(fi)
+    for (n, c, nm) in calls_E(f):
+      if isinstance(c.func, ast.Attribute) and c.func.attr == "load_table" and nargs(c) == 1:
+        sites.append((f, n, c))
+  if not sites:
+    raise AnalysisError("main.py: no call of <engine>.load_table() found")
+  for (f, n, c) in sites:
+    fl = Flow(f)
+    a0 = c.args[0] if c.args else c.keywords[0].value
+    ls = fl.leaves(a0, n.id)
+    rs = [decoded_call(f, l.expr, 2) if isinstance(l.expr, ast.Call) else None for l in ls]
+    if not rs or (None in rs and False not in rs):
+      raise AnalysisError("%s: cannot follow where the argument of load_table() comes from"
+                          % f.qualname)
+    ok = False not in rs
+    run.ob(R3, f.qualname, "eng.load_table(load_and_record_table_data(...))",
+           "tables arriving from Node are decoded before loading", ok, fi=f.fi, node=c)
 
 
 EN = "sandbox/grist/engine.py"
